@@ -14,6 +14,8 @@ CaseVerdict(o) ==
   ELSE IF NeedsEqual(c) /\ o.outInl # "ok" THEN "harness-inlined-document-rejected"
   ELSE IF NeedsEqual(c) /\ o.pr # o.pi THEN "viol-ref-not-transparent"
   ELSE IF NeedsEqual(c) /\ o.pe # o.pr THEN "viol-expand-roundtrip"
+  \* the generator must treat both documents alike (accept both or refuse both)
+  ELSE IF NeedsEqual(c) /\ o.gr # o.gi THEN "viol-generator-treats-reference-and-copy-differently"
   ELSE "ok"
 
 Ev(o) == CASE o.k = "add" -> OnAddKey(st, o) [] o.k = "del" -> OnDelete(st, o)
